@@ -193,10 +193,18 @@ theorem frame_jstep {cfg : Cfg} {s s' : St} {j : Nat} (hpf : cfg.pendFirst = tru
     split at hs
     · cases hs; exact Frame.trans (frame_setPc _ _ _) (frame_snapRel _ _)
     · cases hs
-  case h_20 hpc => cases hs; exact frame_doList _ _
+  case h_20 hpc =>
+    cases hs
+    split
+    · exact frame_doList _ _
+    · constructor <;> simp only [doPendL, St.setJob] <;> grind [upd]
   case h_21 hpc => cases hs; exact frame_doPend _ _
   case h_22 hpc => cases hs; exact frame_doActive _ _
-  case h_23 hpc => cases hs; exact frame_doRollup _ _
+  case h_23 hpc =>
+    cases hs
+    split
+    · exact frame_doRollup _ _
+    · constructor <;> simp only [doRollupL, St.setJob] <;> grind [upd]
   case h_24 hpc =>
     split at hs
     · cases hs; exact frame_jFinish _ _
@@ -211,6 +219,7 @@ theorem frame_jstep {cfg : Cfg} {s s' : St} {j : Nat} (hpf : cfg.pendFirst = tru
     · cases hs; exact frame_doRemove _ _ _ _
   case h_27 hpc => cases hs
   case h_28 hpc => cases hs; constructor <;> simp only [jPendU] <;> grind [upd]
+  case h_29 hpc => cases hs; constructor <;> simp only [doListL, St.setJob] <;> grind [upd]
 
 theorem frame_step {cfg : Cfg} {s s' : St} {a : Act} (hpf : cfg.pendFirst = true)
     (hnf : ∀ k, k < s.nJob → (s.job k).pc = .cLocked → (s.job k).nfRead = s.nextFile)
@@ -265,6 +274,11 @@ theorem frame_step {cfg : Cfg} {s s' : St} {a : Act} (hpf : cfg.pendFirst = true
     simp only [step] at hs
     split at hs
     · cases hs; constructor <;> simp only [St.setSnap] <;> grind [upd]
+    · cases hs
+  | env df dv =>
+    simp only [step] at hs
+    split at hs
+    · cases hs; constructor <;> simp only [envBump] <;> grind
     · cases hs
 
 end LinVerif.Lemmas.C02
